@@ -22,6 +22,7 @@ import (
 	"testing"
 	"time"
 
+	"github.com/mattn/anko/core"
 	"github.com/mattn/anko/env"
 	"github.com/mattn/anko/parser"
 	"github.com/mattn/anko/vm"
@@ -47,6 +48,9 @@ type Work struct {
 	ResBuf     int    `json:"res_buf,omitempty"`     // buffer of the pool's result channel (0 = 2)
 	AnonSend   bool   `json:"anon_send,omitempty"`   // sends go through an anonymous call site shared by several goroutines
 	Nils       bool   `json:"nils,omitempty"`        // interface channels also carry nil items
+	LocalName  int    `json:"local_name,omitempty"`  // >0: the per-invocation variable of workers / relays has an everyday name (timeout, done, reply ...); the environment also carries the core builtins
+	OddShift   int    `json:"odd_shift,omitempty"`   // which odd item comes first
+	Odd        bool   `json:"odd,omitempty"`         // ... and items that are legal values but easy to mistake for "nothing": empty lists and maps, a list holding nil, booleans, zero numbers, the empty string
 	Scale      int64  `json:"scale,omitempty"`       // numeric items are multiplied by this (negative and large values; 0 = 1)
 	CapExpr    int    `json:"cap_expr,omitempty"`    // how buffer sizes are spelled: 0 literal, 1 `1 + 1`-style sum, 2 float literal
 	Helper     bool   `json:"helper,omitempty"`      // goroutines are started from inside helper functions that return at once (closures keep the helper's parameters)
@@ -117,6 +121,10 @@ func (Prop) Gen(seed int64, tier string) *harness.Case {
 	}
 	w.AnonSend = r.Intn(3) == 0
 	w.Nils = w.Elem == "interface" && r.Intn(2) == 0
+	w.Odd = w.Nils && r.Intn(2) == 0
+	if w.Odd {
+		w.OddShift = r.Intn(8)
+	}
 	if (w.Elem == "int64" || w.Elem == "float64") && r.Intn(2) == 0 {
 		w.Scale = []int64{-1, 1000003, -4099, 70000000001}[r.Intn(4)]
 	}
@@ -132,6 +140,9 @@ func (Prop) Gen(seed int64, tier string) *harness.Case {
 		}
 	}
 	w.Relay = w.Workers <= 1 && r.Intn(5) == 0
+	if r.Intn(3) == 0 {
+		w.LocalName = 1 + r.Intn(len(localNames))
+	}
 	w.Dispatch = w.Workers <= 1 && !w.Relay && r.Intn(5) == 0
 	w.DispForm = r.Intn(4)
 	if r.Intn(5) == 0 {
@@ -281,6 +292,26 @@ func itemValue(w *Work, id, i int64) interface{} {
 	case "string":
 		return str
 	case "interface":
+		if w.Odd && i%3 == 1 {
+			switch (id + i/3 + int64(w.OddShift)) % 8 {
+			case 0:
+				return []interface{}{}
+			case 1:
+				return map[interface{}]interface{}{}
+			case 2:
+				return []interface{}{nil}
+			case 3:
+				return false
+			case 4:
+				return int64(0)
+			case 5:
+				return ""
+			case 6:
+				return float64(0)
+			default:
+				return true
+			}
+		}
 		if w.Nils && i%3 == 0 {
 			return nil
 		}
@@ -290,6 +321,60 @@ func itemValue(w *Work, id, i int64) interface{} {
 		return str
 	}
 	return num * scaleOf(w)
+}
+
+// oddTok stands for an item that carries no producer tag and may not be comparable (a list, a map): such items are
+// recorded as tokens, counted, and - like nil items - not ordered.
+type oddTok struct {
+	Kind string
+	Len  int
+}
+
+func norm(v interface{}) interface{} {
+	switch x := v.(type) {
+	case []interface{}:
+		if len(x) == 1 && x[0] == nil {
+			return oddTok{"list-of-nil", 1}
+		}
+		return oddTok{"list", len(x)}
+	case map[interface{}]interface{}:
+		return oddTok{"map", len(x)}
+	case bool:
+		return oddTok{fmt.Sprint("bool-", x), 0}
+	case int64:
+		if x == 0 {
+			return oddTok{"zero-int64", 0}
+		}
+	case float64:
+		if x == 0 {
+			return oddTok{"zero-float64", 0}
+		}
+	case string:
+		if x == "" {
+			return oddTok{"empty-string", 0}
+		}
+	}
+	return v
+}
+
+// untagged: items that cannot be attributed to a producer (nil, odd items) are counted, not ordered.
+func untagged(v interface{}) bool {
+	if v == nil {
+		return true
+	}
+	_, odd := v.(oddTok)
+	return odd
+}
+
+// localNames: names a script would naturally give a per-invocation variable. Assigned inside a function they are locals of
+// that invocation as long as no enclosing scope binds them - whatever the environment's builtins are called.
+var localNames = []string{"timeout", "wait", "reply", "result", "spawn", "tick", "timer", "deadline", "next", "first", "last", "each", "lock", "value", "await", "retry", "pending", "sleep2", "every", "delay"}
+
+func (w *Work) local(def string) string {
+	if w.LocalName > 0 && w.LocalName <= len(localNames) {
+		return localNames[w.LocalName-1]
+	}
+	return def
 }
 
 // fwdValue is the transformation a forwarding stage applies.
@@ -555,10 +640,10 @@ func Render(w *Work) string {
 				pre = "defer func() { done <- 1 }()\n"
 			}
 			fmt.Fprintf(&b, "func startWorkers(src, dst, done, n) {\nfor wk = 0; wk < n; wk++ {\ngo func() {\n%s%s\nexited(\"%s\", cl%d)\n%s\n}()\n}\n}\n",
-				pre, consumerLoop(w.WorkForm, "src", "wv", map[bool]string{false: "dst <- wv", true: "func(x) { dst <- x }(wv)"}[w.AnonSend]), last, stages-1, endSig)
+				pre, consumerLoop(w.WorkForm, "src", w.local("wv"), map[bool]string{false: "dst <- " + w.local("wv"), true: "func(x) { dst <- x }(" + w.local("wv") + ")"}[w.AnonSend]), last, stages-1, endSig)
 			fmt.Fprintf(&b, "startWorkers(%s, res, wd, %d)\n", last, w.Workers)
 		} else {
-			fmt.Fprintf(&b, "func worker(k) {\n%s\nexited(\"%s\", cl%d)\nwd <- k\n}\n", consumerLoop(w.WorkForm, last, "wv", map[bool]string{false: "res <- wv", true: "func(x) { res <- x }(wv)"}[w.AnonSend]), last, stages-1)
+			fmt.Fprintf(&b, "func worker(k) {\n%s\nexited(\"%s\", cl%d)\nwd <- k\n}\n", consumerLoop(w.WorkForm, last, w.local("wv"), map[bool]string{false: "res <- " + w.local("wv"), true: "func(x) { res <- x }(" + w.local("wv") + ")"}[w.AnonSend]), last, stages-1)
 			fmt.Fprintf(&b, "for wk = 0; wk < %d; wk++ { go worker(wk) }\n", w.Workers)
 		}
 		fmt.Fprintf(&b, "go func() {\nfor k = 0; k < %d; k++ { <-wd }\nclres = true\nclose(res)\n}()\n", w.Workers)
@@ -571,7 +656,7 @@ func Render(w *Work) string {
 			tot += n
 		}
 		fmt.Fprintf(&b, "res = make(chan %s, 2)\nwd = make(chan int64)\n", w.Elem)
-		fmt.Fprintf(&b, "func relay() {\nrv = <-%s\nres <- rv\nwd <- 1\n}\n", last)
+		fmt.Fprintf(&b, "func relay() {\n%s = <-%s\nres <- %s\nwd <- 1\n}\n", w.local("rv"), last, w.local("rv"))
 		fmt.Fprintf(&b, "for wk = 0; wk < %d; wk++ { go relay() }\n", tot)
 		fmt.Fprintf(&b, "go func() {\nfor k = 0; k < %d; k++ { <-wd }\nclres = true\nclose(res)\n}()\n", tot)
 		last = "res"
@@ -867,9 +952,15 @@ func (Prop) Run(t *testing.T, c *harness.Case, verbose bool) *harness.Result {
 		sim = simrt.New(c.Choices, budget)
 		ctx := sim.NewCtx()
 		e := env.NewEnv()
+		if w.LocalName > 0 {
+			core.Import(e)
+		}
 		e.Define("emit", func(v interface{}) {
 			simrt.Yield("emit")
 			mu.Lock()
+			if w.Odd {
+				v = norm(v)
+			}
 			got = append(got, v)
 			mu.Unlock()
 		})
@@ -885,7 +976,11 @@ func (Prop) Run(t *testing.T, c *harness.Case, verbose bool) *harness.Result {
 			mu.Lock()
 			k := fmt.Sprintf("sent%d", id)
 			lst, _ := probes[k].([]interface{})
-			probes[k] = append(lst, v)
+			if w.Odd {
+				probes[k] = append(lst, norm(v))
+			} else {
+				probes[k] = append(lst, v)
+			}
 			mu.Unlock()
 			return v
 		})
@@ -987,6 +1082,14 @@ func (Prop) Run(t *testing.T, c *harness.Case, verbose bool) *harness.Result {
 // judge is the delivery oracle, shared by the simulation and the real-thread leg.
 func judge(wp *Work, got []interface{}, probes map[string]interface{}, mainVal interface{}, mainErr error) (string, string) {
 	w := *wp
+	if w.Odd {
+		// whatever path an item took to the record (the script's emit, the host draining the channel itself)
+		ng := make([]interface{}, len(got))
+		for i, v := range got {
+			ng[i] = norm(v)
+		}
+		got = ng
+	}
 	order := fmt.Sprint(got)
 	type failure struct{ class, detail string }
 	var f *failure
@@ -1059,10 +1162,12 @@ func judge(wp *Work, got []interface{}, probes map[string]interface{}, mainVal i
 		}
 		next := make([]int, len(exp))
 		wantNil, gotNil := 0, 0
+		untaggedBalance := map[interface{}]int{}
 		for _, seq := range exp {
 			for _, v := range seq {
-				if v == nil {
+				if untagged(v) {
 					wantNil++
+					untaggedBalance[v]++
 				}
 			}
 		}
@@ -1070,15 +1175,16 @@ func judge(wp *Work, got []interface{}, probes map[string]interface{}, mainVal i
 			if exp == nil {
 				break
 			}
-			if v == nil {
+			if untagged(v) {
 				gotNil++
+				untaggedBalance[v]--
 				continue
 			}
 			p := producerOf(&w, v)
 			if p < 1 || p > len(exp) {
 				return fail("phantom-item", fmt.Sprintf("consumer received %#v which no producer sent (delivered: %s)", v, order))
 			}
-			for next[p-1] < len(exp[p-1]) && exp[p-1][next[p-1]] == nil {
+			for next[p-1] < len(exp[p-1]) && untagged(exp[p-1][next[p-1]]) {
 				next[p-1]++ // nil items carry no producer tag: they are counted, not ordered
 			}
 			if next[p-1] >= len(exp[p-1]) {
@@ -1091,7 +1197,7 @@ func judge(wp *Work, got []interface{}, probes map[string]interface{}, mainVal i
 			next[p-1]++
 		}
 		for p := range exp {
-			for next[p] < len(exp[p]) && exp[p][next[p]] == nil {
+			for next[p] < len(exp[p]) && untagged(exp[p][next[p]]) {
 				next[p]++
 			}
 			if next[p] != len(exp[p]) {
@@ -1099,7 +1205,14 @@ func judge(wp *Work, got []interface{}, probes map[string]interface{}, mainVal i
 			}
 		}
 		if exp != nil && gotNil != wantNil {
-			return fail("lost-item", fmt.Sprintf("%d nil items were sent on the interface channel, %d were delivered (delivered: %s)", wantNil, gotNil, order))
+			return fail("lost-item", fmt.Sprintf("%d nil / untagged items (empty lists and maps, booleans, zero values) were sent on the interface channel, %d were delivered (delivered: %s)", wantNil, gotNil, order))
+		}
+		if exp != nil {
+			for v, n := range untaggedBalance {
+				if n != 0 {
+					return fail("order-or-conversion", fmt.Sprintf("untagged item %#v: sent and delivered counts differ by %d (delivered: %s)", v, n, order))
+				}
+			}
 		}
 		// the collected list returned to the host equals what was emitted
 		if lst, ok := mainVal.([]interface{}); !w.Nils && w.HostDrain != 1 && (!ok || fmt.Sprint(lst) != order) {
@@ -1152,7 +1265,17 @@ func RunReal(c *harness.Case) (string, string) {
 	var got []interface{}
 	probes := map[string]interface{}{}
 	e := env.NewEnv()
-	e.Define("emit", func(v interface{}) { mu.Lock(); got = append(got, v); mu.Unlock() })
+	if w.LocalName > 0 {
+		core.Import(e)
+	}
+	e.Define("emit", func(v interface{}) {
+		mu.Lock()
+		if w.Odd {
+			v = norm(v)
+		}
+		got = append(got, v)
+		mu.Unlock()
+	})
 	e.Define("probe", func(tag string, v interface{}) { mu.Lock(); probes[tag] = v; mu.Unlock() })
 	e.Define("sleep", func(ms int64) { time.Sleep(time.Duration(ms) * time.Microsecond) })
 	e.Define("item", func(id, i int64) interface{} {
@@ -1160,7 +1283,11 @@ func RunReal(c *harness.Case) (string, string) {
 		mu.Lock()
 		k := fmt.Sprintf("sent%d", id)
 		lst, _ := probes[k].([]interface{})
-		probes[k] = append(lst, v)
+		if w.Odd {
+			probes[k] = append(lst, norm(v))
+		} else {
+			probes[k] = append(lst, v)
+		}
 		mu.Unlock()
 		return v
 	})
